@@ -19,10 +19,18 @@ Families (--tier quick: 3000 histories, thorough: 15000 per seed):
   pens      pens with internal reference traffic: ON_CHANGE handlers that unref/ref the pen, set_colour_attr_desc
             with accepted and rejected descriptions, copy / copy_attr (freeze/thaw)
   copyout   get_cell_text / get_span with buffers around the exact fit; mock terminal display text
+  terminput / toplevel   the terminal's input entry points; the toplevel instance
+  mockresize  tickit_mockterm_resize on a mock terminal holding content: every combination of fewer / as many / more
+            lines and columns (also several in a row, with windows, after the root window is gone), display text read
+            back, printing and flushing at the new size
+  sigwinch  tickit_term_observe_sigwinch over the main terminal and up to six further ones: observe / stop in any
+            order, terminals destroyed at any position of the observer list (mostly third or later), SIGWINCH raised
+            afterwards, the main terminal released through its root window
 exhaustive: every order of <= 5 lifecycle operations on a root with two nested children and one pen
             (DESIGN §7 C08), each followed by flush and end.
 """
-import argparse, random, json, itertools
+import argparse, random, json, itertools, zlib
+def dhash(seq): return zlib.crc32("|".join(seq).encode())
 
 ap = argparse.ArgumentParser()
 ap.add_argument("--seed", type=int, default=1); ap.add_argument("--tier", default="quick")
@@ -30,7 +38,7 @@ ap.add_argument("--out", required=True); ap.add_argument("--prop", default="C08"
 ap.add_argument("--families", default="")
 a = ap.parse_args()
 rng = random.Random(a.seed)
-lines, mix, fam_count = [], {}, {}
+lines, mix, fam_count, resize_mix = [], {}, {}, {}
 
 def emit(s):
     lines.append(s)
@@ -359,6 +367,164 @@ def gen_copyout_history(rng):
         emit("%s 0 %d %d %d" % (rng.choice(["bcell", "bcell", "bspan"]), line, col, ln))
     emit("end")
 
+def mock_resize(scr, nL, nC):
+    """tickit_mockterm_resize on the generator's copy of the screen"""
+    out = []
+    for l in range(nL):
+        row = []
+        for c in range(nC):
+            row.append(scr[l][c] if l < len(scr) and c < len(scr[l]) else "20")
+        out.append(row)
+    return out
+
+def mock_random_print(rng, scr, Lm, Cm):
+    line = rng.randrange(Lm); col = rng.randrange(Cm) if rng.random() < 0.6 else 0
+    cl = []; used = col
+    for _ in range(rng.randint(1, Cm)):
+        c = rng.choice(CLUSTERS) if rng.random() < 0.6 else ("%02x" % rng.choice(ASCII), 1)
+        if used + c[1] > Cm and rng.random() < 0.85: break
+        cl.append(c); used += c[1]
+    if not cl: cl = [rng.choice(CLUSTERS[:6])]
+    emit("mprint %d %d %s" % (line, col, "".join(h for h, _ in cl)))
+    mock_print(scr, Lm, Cm, line, col, cl)
+
+def mock_random_disp(rng, scr, Lm, Cm, line=None):
+    if line is None: line = rng.randrange(Lm)
+    col = rng.randrange(Cm); width = rng.randint(1, Cm - col)
+    if rng.random() < 0.6: col, width = 0, Cm
+    inside, other = mock_lens(scr, line, col, width)
+    big = lambda l: [x for x in l if x > width] or l
+    cand = big(inside) + big(other)
+    ln = rng.choice(cand) if cand and rng.random() < 0.9 else rng.choice([-1, 0])
+    emit("mdisp %d %d %d %d" % (ln, line, col, width))
+
+RESIZE_KINDS = ["shrink", "same", "grow"]
+def resize_dim(rng, v, kind, hi):
+    if kind == "shrink": return rng.randint(1, v - 1) if v > 1 else v
+    if kind == "grow": return v + rng.randint(1, hi)
+    return v
+
+def gen_mockresize_history(rng, combo=None):
+    """tickit_mockterm_resize: each call picks, per dimension, fewer / as many / more (all nine combinations equally often,
+    `combo` forces the first), on a screen with printed cells in its last rows and columns"""
+    Lm, Cm = rng.randint(1, 6), rng.randint(2, 12)
+    emit("newmock %d %d" % (Lm, Cm))
+    scr = [["20"] * Cm for _ in range(Lm)]
+    nw = 1; has_root = True; known = True; printed = False
+    for _ in range(rng.choice([0, 0, 0, 1, 2])):
+        emit("win %d %d %d %d %d %d" % ((rng.randrange(nw),) + rect(rng) + (rng.choice([0, 0, 8]),))); nw += 1
+    if rng.random() < 0.12:
+        emit("tref"); emit("unref 0"); has_root = False     # the terminal without its root window
+    for _ in range(rng.randint(1, 4)): mock_random_print(rng, scr, Lm, Cm); printed = True
+    if rng.random() < 0.5:
+        # content in the last line / up to the last column: what a resize drops
+        emit("mprint %d %d %s" % (Lm - 1, max(0, Cm - 3), "414243")); mock_print(scr, Lm, Cm, Lm - 1, max(0, Cm - 3), [("41", 1), ("42", 1), ("43", 1)])
+    for k in range(rng.randint(1, 5)):
+        kl, kc = combo if (combo and k == 0) else (rng.choice(RESIZE_KINDS), rng.choice(RESIZE_KINDS))
+        nL, nC = resize_dim(rng, Lm, kl, 4), resize_dim(rng, Cm, kc, 8)
+        if nC < 2 and rng.random() < 0.7: nC = 2
+        emit("mresize %d %d" % (nL, nC))
+        resize_mix["%s-lines,%s-cols" % (kl, kc)] = resize_mix.get("%s-lines,%s-cols" % (kl, kc), 0) + 1
+        scr = mock_resize(scr, nL, nC); Lm, Cm = nL, nC
+        for _ in range(rng.randint(0, 3)):
+            r = rng.random()
+            if r < 0.5 and known: mock_random_disp(rng, scr, Lm, Cm, rng.choice([None, Lm - 1]))
+            elif r < 0.75 and known: mock_random_print(rng, scr, Lm, Cm)
+            elif r < 0.85:
+                emit("flush")
+                if has_root and printed: known = False       # the model does not follow what a flush draws
+            elif r < 0.92 and has_root and nw < 6:
+                emit("win %d %d %d %d %d 0" % ((rng.randrange(nw),) + rect(rng))); nw += 1
+            elif r < 0.96 and has_root:
+                emit("mouse 1 1 %d %d" % (rng.randint(0, Lm), rng.randint(0, Cm)))
+                if printed: known = False
+            elif has_root and nw > 1: emit("unref %d" % rng.randrange(1, nw))
+    emit("end")
+
+class WinchList:
+    """the observer list as the unrepaired code keeps it (a terminal keeps its link when it stops observing): the
+    generator uses it to know when observing again re-links a stale pointer (known finding sigwinch_stale_next)"""
+    def __init__(self): self.first = None; self.next = {}; self.obs = set(); self.dead = set()
+    def chain(self):
+        out = []; c = self.first
+        while c is not None and c not in out and c not in self.dead: out.append(c); c = self.next.get(c)
+        return out
+    def observe(self, t):
+        if t in self.obs: return
+        self.obs.add(t); ch = self.chain()
+        if ch: self.next[ch[-1]] = t
+        else: self.first = t
+    def unobserve(self, t):
+        if t not in self.obs: return
+        self.obs.discard(t); ch = self.chain()
+        if t in ch:
+            i = ch.index(t)
+            if i == 0: self.first = self.next.get(t)
+            else: self.next[ch[i - 1]] = self.next.get(t)
+    def stale(self, t): return t not in self.obs and self.next.get(t) is not None
+    def destroy(self, t): self.unobserve(t); self.dead.add(t)
+
+def gen_sigwinch_history(rng):
+    kind = rng.choice(["new", "new", "newin", "newmock"])
+    emit("%s 6 12" % kind)
+    wl = WinchList(); nx = 0; xrefs = {}; main_alive = True; trefs = 1
+    def live(): return [k for k in range(nx) if xrefs[k] > 0]
+    for _ in range(rng.randint(2, 5)): emit("xnew"); xrefs[nx] = 1; nx += 1
+    # mostly: everybody observes first, in a random order
+    order = list(range(nx)) + ["t"]; rng.shuffle(order)
+    for t in order:
+        if rng.random() < 0.85:
+            emit("tobs 1" if t == "t" else "xobs %d 1" % t); wl.observe(t)
+    for _ in range(rng.randint(4, 14)):
+        r = rng.random()
+        if r < 0.22: emit("winch")
+        elif r < 0.42:
+            # a terminal goes away: mostly one that stands third or later in the list
+            ch = [t for t in wl.chain() if t != "t"]
+            late = [t for t in wl.chain()[2:] if t != "t"]
+            cand = late if late and rng.random() < 0.7 else (ch or live())
+            if not cand: continue
+            t = rng.choice(cand)
+            if xrefs[t] > 1 or rng.random() < 0.9:
+                emit("xunref %d" % t); xrefs[t] -= 1
+                if xrefs[t] == 0: wl.destroy(t)
+        elif r < 0.56:
+            # stop observing: any position
+            ch = wl.chain()
+            if not ch: continue
+            t = rng.choice(ch[2:]) if len(ch) > 2 and rng.random() < 0.5 else rng.choice(ch)
+            if t == "t" and not main_alive: continue
+            emit("tobs 0" if t == "t" else "xobs %d 0" % t); wl.unobserve(t)
+        elif r < 0.74:
+            cand = [t for t in live() + (["t"] if main_alive else []) if t not in wl.obs]
+            # observing again with a stale link: rarely (known finding sigwinch_stale_next on the unrepaired tree)
+            cand = [t for t in cand if not wl.stale(t) or rng.random() < 0.06]
+            if not cand: continue
+            t = rng.choice(cand)
+            emit("tobs 1" if t == "t" else "xobs %d 1" % t); wl.observe(t)
+        elif r < 0.80 and nx < 7:
+            emit("xnew"); xrefs[nx] = 1; nx += 1
+            if rng.random() < 0.7: emit("xobs %d 1" % (nx - 1)); wl.observe(nx - 1)
+        elif r < 0.84 and live():
+            t = rng.choice(live()); emit("xref %d" % t); xrefs[t] += 1
+        elif r < 0.90 and main_alive:
+            # the main terminal goes: the application's references and the root window's
+            if rng.random() < 0.5:
+                for _ in range(trefs): emit("tunref")
+                emit("unref 0")
+            else:
+                emit("unref 0")
+                for _ in range(trefs): emit("tunref")
+            main_alive = False; wl.destroy("t")
+        elif r < 0.93 and main_alive: emit("tref"); trefs += 1
+        elif r < 0.96 and kind == "newin": emit("tpush a")
+        elif rng.random() < 0.5:
+            # the same request again, or a handle that does not exist
+            t = rng.randrange(nx + 1)
+            if t < nx and xrefs[t] > 0: emit("xobs %d %d" % (t, 1 if t in wl.obs else 0))
+            else: emit("xobs %d %d" % (t, rng.choice([0, 1])))
+    emit("end")
+
 def gen_terminput_history(rng):
     """the terminal's own bindings and input entry points (push_bytes, readable, wait_msec / wait_tv, check_timeout_msec,
     emit_key / emit_mouse) with handlers on the terminal and on windows that drop windows, the root and the terminal itself,
@@ -444,6 +610,8 @@ def gen_terminput_history(rng):
         elif r < 0.92: emit("%s %d" % (rng.choice(["unref", "unref", "close", "ref"]), rng.randrange(nw)))
         elif r < 0.95 and ntb: emit("tunbind %d" % rng.randint(3, 4 + ntb))
         elif r < 0.97: emit("flush")
+        elif r < 0.975 and not pend:
+            emit("tsetin")       # known finding set_input_fd_termkey on the unrepaired tree
         else:
             emit("tbind key %d %s" % (rng.choice([0, 1]), rng.choice(["t", "u0 t", "T", "c0"]))); ntb += 1
     emit("end")
@@ -537,7 +705,7 @@ if a.tier == "exhaustive":
     nh = 0
     for k in range(1, 5):
         for seq in itertools.product(alphabet, repeat=k):
-            if k == 4 and (hash(seq) ^ a.seed) % 4 != 0:   # a quarter of the 4-sequences per seed
+            if k == 4 and (dhash(seq) ^ a.seed) % 4 != 0:   # a quarter of the 4-sequences per seed
                 continue
             emit("new 6 12"); emit("win 0 0 0 4 8 0"); emit("win 1 0 0 2 4 0"); emit("win 0 1 1 3 3 0"); emit("pen")
             emit("bind 2 key 0 u2")
@@ -589,11 +757,39 @@ if a.tier == "exhaustive":
             emit("newtop 6 12"); emit("win 0 0 0 4 8 0"); emit("win 1 0 0 2 4 0"); emit("bind 2 key 0 u2")
             for o in seq: emit(o)
             emit("end"); ni += 1
-    info = {"mock_display_histories": nm, "terminput_histories": nt, "toplevel_histories": ni}
-    info.update({"exhaustive_bound": "all sequences of <=3 (and a seed-selected quarter of the length-4) operations over a 13-letter lifecycle alphabet on root>1>2, 3 sibling of 1, one pen, one self-unref key handler; each followed by flush and end; tickit_mockterm_get_display_text with every buffer length (short of the known exact-fill overflow) for every span of five fixed lines of multi-byte, double-width and combining cells; all sequences of <=3 operations over a 12-letter alphabet of terminal input calls with a quitting key handler on the terminal, and over a 14-letter alphabet of toplevel-instance calls on root>1>2", "histories": nh})
+    # tickit_mockterm_resize: from 3x4 with content in the last line and column to every size of 1..5 x 1..6 and on to a
+    # second size (seed-selected), the display read back after each
+    nr = 0
+    for nL in range(1, 6):
+        for nC in range(1, 7):
+            L2, C2 = 1 + (nL * 7 + nC * 3 + a.seed) % 5, 1 + (nL * 5 + nC + a.seed) % 6
+            emit("newmock 3 4"); emit("mprint 2 0 61c3a9e4b8ad"); emit("mprint 0 3 7a")
+            scr = [["20"] * 4 for _ in range(3)]
+            mock_print(scr, 3, 4, 2, 0, [("61", 1), ("c3a9", 1), ("e4b8ad", 2)]); mock_print(scr, 3, 4, 0, 3, [("7a", 1)])
+            for (xl, xc) in ((nL, nC), (L2, C2)):
+                emit("mresize %d %d" % (xl, xc)); scr = mock_resize(scr, xl, xc)
+                for line in sorted({0, xl - 1}):
+                    inside, other = mock_lens(scr, line, 0, xc)
+                    cand = [x for x in inside + other if x > xc]
+                    emit("mdisp %d %d 0 %d" % (max(cand) if cand else 0, line, xc))
+            emit("end"); nr += 1
+    # the SIGWINCH observer list: the main terminal and three further ones, all observing; every sequence of <= 3 of:
+    # stop / observe again (each terminal), destroy (each further terminal), the signal.  Sequences that observe again
+    # with a stale link run into known finding sigwinch_stale_next on the unrepaired tree.
+    alpha_s = ["xobs 0 0", "xobs 1 0", "xobs 2 0", "xobs 0 1", "xobs 1 1", "xobs 2 1", "tobs 0", "tobs 1", "xunref 0", "xunref 1", "xunref 2", "winch"]
+    nsw = 0
+    for k in range(1, 4):
+        for seq in itertools.product(alpha_s, repeat=k):
+            if k == 3 and (dhash(seq) ^ a.seed) % 2 != 0: continue
+            emit("new 6 12"); emit("xnew"); emit("xnew"); emit("xnew")
+            for o in (["xobs 0 1", "tobs 1", "xobs 1 1", "xobs 2 1"] if len(seq) % 2 else ["tobs 1", "xobs 2 1", "xobs 1 1", "xobs 0 1"]): emit(o)
+            for o in seq: emit(o)
+            emit("winch"); emit("end"); nsw += 1
+    info = {"mock_display_histories": nm, "terminput_histories": nt, "toplevel_histories": ni, "mock_resize_histories": nr, "sigwinch_histories": nsw}
+    info.update({"exhaustive_bound": "all sequences of <=3 (and a seed-selected quarter of the length-4) operations over a 13-letter lifecycle alphabet on root>1>2, 3 sibling of 1, one pen, one self-unref key handler; each followed by flush and end; tickit_mockterm_get_display_text with every buffer length (short of the known exact-fill overflow) for every span of five fixed lines of multi-byte, double-width and combining cells; all sequences of <=3 operations over a 12-letter alphabet of terminal input calls with a quitting key handler on the terminal, and over a 14-letter alphabet of toplevel-instance calls on root>1>2; tickit_mockterm_resize from 3x4 to every size of 1..5 x 1..6 and on to a second size; all sequences of <=2 (and half of those of 3) operations over a 12-letter alphabet of observe/stop/destroy/SIGWINCH on four observing terminals", "histories": nh})
 else:
     scale = 1 if a.tier == "quick" else 5
-    fams = {"tree": 700, "handlers": 700, "foreign": 400, "objects": 400, "pens": 400, "copyout": 400, "terminput": 500, "toplevel": 500}
+    fams = {"tree": 700, "handlers": 700, "foreign": 400, "objects": 400, "pens": 400, "copyout": 400, "terminput": 500, "toplevel": 500, "mockresize": 360, "sigwinch": 400}
     if a.families:
         fams = {k: v for k, v in fams.items() if k in a.families.split(",")}
     for fam, n in fams.items():
@@ -606,9 +802,11 @@ else:
             elif fam == "pens": gen_pens_history(rng)
             elif fam == "terminput": gen_terminput_history(rng)
             elif fam == "toplevel": gen_toplevel_history(rng)
+            elif fam == "mockresize": gen_mockresize_history(rng, (RESIZE_KINDS[(_ // 3) % 3], RESIZE_KINDS[_ % 3]))
+            elif fam == "sigwinch": gen_sigwinch_history(rng)
             else: gen_copyout_history(rng)
             fam_count[fam] = fam_count.get(fam, 0) + 1
-    info = {"histories": sum(fam_count.values()), "families": fam_count}
+    info = {"histories": sum(fam_count.values()), "families": fam_count, "mresize_combinations": resize_mix}
 open(a.out, "w").write("\n".join(lines) + "\n")
 info.update({"ops": len(lines), "mix": mix})
 print(json.dumps(info))
